@@ -1,24 +1,58 @@
 ID = 'C13'
 # shim=True: <deque> resolves to engine/shim/deque (fixed-capacity FIFO, capacity overflow = assertion failure); the native
-# "real" build uses libstdc++. new_block = fixed operator-new block: KDTree nodes are 56 bytes; the vector returned by
-# within() needs up to 4 * 24 = 96 bytes.
-UNITS = {'kd': dict(wrap='wrap.cc', shim=True, new_block=128, cxxflags=['-DVERIF_DEQUE_CAP=5'],
-                    per_harness={'h_lookup.c': {'new_block': 64}, 'h_lookup3.c': {'new_block': 64}, 'h_iter.c': {'new_block': 64}, 'h_erase_iter.c': {'new_block': 64}})}
+# "real" build uses libstdc++. new_block = fixed operator-new block: KDTree nodes are 56 bytes (64 in 3-D); the vector returned by
+# within() needs up to 4 * 24 = 96 bytes (4 * 32 = 128 in 3-D).
+# gen_defs VERIF_NEW_ZERO + VERIF_NEW_U64: operator-new blocks are zero-filled arrays of 64-bit words, so that CBMC keeps one SSA
+# symbol per node field instead of byte-level updates (measured: lookup_p3_e1 131 s / 2.6 GB -> 36 s / 0.7 GB; box_p3_e1 217 s / 7.2 GB
+# -> 122 s / 2.3 GB; box_p4_e1 out of memory at 12 GB -> 795 s / 4.5 GB; inductive step erase, 3 nodes: 129 s -> 24 s).
+_ZERO = ['VERIF_NEW_ZERO', 'VERIF_NEW_U64']
+UNITS = {'kd': dict(wrap='wrap.cc', shim=True, new_block=128, gen_defs=_ZERO, cxxflags=['-DVERIF_DEQUE_CAP=5'],
+                    per_harness={'h_lookup.c': {'new_block': 64}, 'h_lookup3.c': {'new_block': 64}, 'h_lookup3g.c': {'new_block': 64}, 'h_iter.c': {'new_block': 64},
+                                 'h_iter3.c': {'new_block': 64}, 'h_erase_iter.c': {'new_block': 64}})}
 
-BOUNDS = ('KDTree<Vector2<int64_t>,int>: P inserts of symbolic points from the 3x3 grid {0,1,2}^2 with symbolic values {0,1} (duplicate points, '
+# inductive-step units (wrap_step.cc, kd_step.h): KDTree<Vector2/3<int64_t>, KsVal>, state assembled directly. VERIF_NEW_ZERO + VERIF_NEW_U64:
+UNITS['kds'] = dict(wrap='wrap_step.cc', shim=True, new_block=64, gen_defs=_ZERO, cxxflags=['-DVERIF_DEQUE_CAP=8', '-DKS_D=2'],
+                    per_harness={'h_step_boxw.c': {'new_block': 192}})
+# within(): -fno-inline keeps the vector's growth helpers functions; they are cut and replaced by the reserve-ahead model kd_vec_reserve.c
+_VEC_CUTS = ['^_ZNKSt6vectorISt4pairIN5phosg7Vector[23]IlEE.*12_M_check_lenEmPKc$', '^_ZNSt12_Vector_baseISt4pairIN5phosg7Vector[23]IlEE.*11_M_allocateEm$',
+             '^_ZNSt12_Vector_baseISt4pairIN5phosg7Vector[23]IlEE.*13_M_deallocateEPS[0-9]_m$']
+UNITS['kdsw'] = dict(wrap='wrap_step.cc', shim=True, new_block=64, gen_defs=_ZERO + ['VERIF_VEC_CAP=8'], cxxflags=['-DVERIF_DEQUE_CAP=8', '-DKS_D=2', '-fno-inline'],
+                     cuts=_VEC_CUTS, extra_c=['kd_vec_reserve.c'])
+UNITS['kdsw3'] = dict(wrap='wrap_step.cc', shim=True, new_block=64, gen_defs=_ZERO + ['VERIF_VEC_CAP=8'], cxxflags=['-DVERIF_DEQUE_CAP=8', '-DKS_D=3', '-fno-inline'],
+                      cuts=_VEC_CUTS, extra_c=['kd_vec_reserve.c'])
+UNITS['kds3'] = dict(wrap='wrap_step.cc', shim=True, new_block=64, gen_defs=_ZERO, cxxflags=['-DVERIF_DEQUE_CAP=8', '-DKS_D=3'],
+                     per_harness={'h_step_boxw.c': {'new_block': 256}})
+
+BOUNDS = ('(1) HISTORIES, KDTree<Vector2<int64_t>,int>: P inserts of symbolic points from the 3x3 grid {0,1,2}^2 with symbolic values {0,1} (duplicate points, '
           'identical (point,value) entries and shared coordinates included), then E erase(point,value) calls with symbolic arguments '
           '(hit or miss), then (a) at/exists for a symbolic probe point, (b) exists(lo,hi)/within(lo,hi) for a symbolic half-open box with '
           'corners in {0..3}^2, (c) iteration begin()..end(); each followed by the destructor. Quick: (P,E) in {(0,0),(1,0),(1,1),(2,1)} '
-          'for all three, (3,0) for lookup and iteration, (3,1) for lookup; thorough: (2,2),(3,0),(3,1),(4,0) for all three and (3,2),(4,1) for lookup and iteration. '
+          'for all three, (3,0) for lookup and iteration, (3,1) for lookup; thorough: adds (2,2),(3,0),(3,1),(3,2),(4,0),(4,1) for all three and (4,2) for lookup and iteration. '
           'Erase while iterating (erase_advance under a symbolic predicate over the entries, then size/iteration/exists): P <= 2 quick, P <= 3 thorough. '
-          'Thorough also: KDTree<Vector3<int64_t>,int> on the 2x2x2 grid, (P,E) in {(3,1),(4,1)}, erase results/size/at/exists.')
-STUBS = ['std::deque -> engine/shim/deque (fixed-capacity FIFO of 5 slots, never reuses popped slots; overflow is an assertion failure, not reached for P <= 4)']
-OUTSIDE = ['more than 4 points; grids larger than 3x3 (ties along both axes, duplicates and identical entries are present in the 3x3 grid)',
-           'P=4 with 2 erases (lookup 11 min and iteration 10.5 min: hold, run once, not in the tier; box queries out of memory at 12 GB); box queries at P=4 with 1 erase and erase_advance at P=4: solver out of memory at 12 GB; box queries at P=3,E=2 hold (8 min, 9+ GB, run twice) but do not fit the 30-minute / 14 GB tier',
-           '3-D trees beyond insert/erase/exact lookup on the 2x2x2 grid (P <= 4, E = 1); value types other than int; emplace() (does not compile: std::forward(args) without template argument)',
+          '3-D, KDTree<Vector3<int64_t>,int> on the 3x3x3 grid (lookup3g/box3/iter3: same three harnesses, boxes with corners in {0..3}^3): (1,1),(2,1) quick (box: (1,1)), '
+          'plus (3,0),(3,1) thorough; and on the 2x2x2 grid (3,1),(4,1) exact lookups (thorough). '
+          '(2) INDUCTIVE STEP, KDTree<Vector2<int64_t>,KsVal> and KDTree<Vector3<int64_t>,KsVal> (KsVal = {int v; int tag} with == on v): pre-state = EVERY tree with N nodes that '
+          'satisfies the representation invariant (every binary-tree shape - symbolic -, symbolic points on the 3x3 / 3x3x3 grid, values {0,1}; assembled directly from Node objects), '
+          'ONE operation with symbolic arguments - insert, erase(pt,v), at/exists(pt), exists(lo,hi), within(lo,hi), begin()..end(), or one step (++it / erase_advance(it), symbolic choice) of an '
+          'iterator that has consumed K entries -, post-state = invariant again + entries = old entries -/+ the one entry + results = linear scan; destructor. '
+          '2-D: N <= 3 quick (within: N <= 2; erase also N = 4), N <= 4 all operations and N = 5 for insert, erase, at/exists, exists(lo,hi), iteration and every iterator position K (thorough). '
+          '3-D: N = 2 quick, N <= 4 thorough (within: N <= 3). By induction: every history of insert / erase / erase-while-iterating calls of ANY length whose tree never holds '
+          'more than 5 (3-D: 4) entries keeps the invariant and the multiset, and every query on every such state agrees with a linear scan (within(): up to 4 resp. 3 entries).')
+STUBS = ['std::deque -> engine/shim/deque (fixed-capacity FIFO of 5 slots (inductive-step units: 8), never reuses popped slots; overflow is an assertion failure, not reached within the bounds)',
+         'inductive step of within() only (units kdsw, kdsw3): std::vector growth (_M_check_len, _M_allocate, _M_deallocate of the result vector) -> reserve-ahead model kd_vec_reserve.c: '
+         'the first growth reserves 8 elements in a static block, a second growth is a reported bound failure; the rest of std::vector is the real libstdc++ code. The history harnesses use the real growth code.']
+OUTSIDE = ['histories in which the tree holds more than 5 entries at some point (3-D: 4; within(): 4 resp. 3); grids larger than 3x3 / 3x3x3 (ties along every axis, duplicates and identical entries are present)',
+           'from-scratch histories beyond P=4 inserts with 2 erases (box queries: 1 erase) - longer histories are covered only through the inductive step; erase_iter at P=4 holds (24 min, run once) but does not fit the tier',
+           'the inductive step instantiates the template with the value type KsVal (8-byte POD, operator== on v only) instead of int; value types with non-trivial copy/move; emplace() (does not compile: std::forward(args) without template argument)',
            'depth(), at() value choice among duplicates of the same point (any stored value is accepted)',
-           "libstdc++'s std::deque itself"]
-ASSUMPTIONS = ['a box query on an empty tree is expected to return an empty result (property text: "agree with a linear scan")']
+           'insert while an iterator is live (the iterator family of the inductive step is the breadth-first frontier reached by ++ and erase_advance only)',
+           "libstdc++'s std::deque itself; in the within() step queries libstdc++'s vector growth policy"]
+ASSUMPTIONS = ['a box query on an empty tree is expected to return an empty result (property text: "agree with a linear scan")',
+               'inductive step: the pre-state satisfies the representation invariant stated in props/C13/kd_step.h (tree shape with consistent parent links and node_count = number of nodes; '
+               'dim = depth mod D; every node of a->before is < a and every node of a->after_or_equal is >= a along a.dim); every post-state is checked against the same invariant, the base case '
+               '(empty tree / begin()) is the N = 0 cell and the history harnesses',
+               'operator-new blocks are zero-filled arrays of 64-bit words (VERIF_NEW_ZERO, VERIF_NEW_U64): behaviour that depends on reading uninitialised operator-new memory is not explored '
+               '(Node constructors initialise every member; the result vector of within() only reads elements it has constructed)']
 
 
 def _cells(tier, what):
@@ -29,15 +63,15 @@ def _cells(tier, what):
         quick.append((3, 1))
     if tier == 'quick':
         return quick
-    extra = [(2, 2), (3, 0), (3, 1), (4, 0)]
+    extra = [(2, 2), (3, 0), (3, 1), (4, 0), (3, 2), (4, 1)]
     if what in ('lookup', 'iter'):
-        extra += [(3, 2), (4, 1)]
+        extra += [(4, 2)]
     return quick + [c for c in extra if c not in quick]
 
 
 _MEM = {  # address-space cap per query (GB): measured peak RSS (box_p3_e2 9.1+, erase_iter_p3 7.3+, lookup/iter_p4_e1 4.4) plus headroom;
     # box_p3_e1 7.2, box_p2_e2 5.6, box_p4_e0 5.4, lookup_p3_e2 4.6; cells not listed stay below 3 GB
-    'box_p3_e2': 12, 'erase_iter_p3': 10, 'box_p3_e1': 8, 'box_p4_e0': 8, 'box_p2_e2': 8, 'lookup_p3_e2': 8, 'iter_p3_e2': 8,
+    'box_p4_e1': 7, 'box_p3_e2': 12, 'erase_iter_p3': 10, 'box_p3_e1': 8, 'box_p4_e0': 8, 'box_p2_e2': 8, 'lookup_p3_e2': 8, 'iter_p3_e2': 8,
     'lookup_p4_e1': 6, 'iter_p4_e1': 6, 'lookup_p3_e1': 6, 'iter_p3_e1': 6, 'box_p2_e1': 6, 'box_p3_e0': 6, 'erase_iter_p2': 6,
     'lookup_p2_e2': 5, 'iter_p2_e2': 5, 'lookup_p2_e1': 4, 'iter_p2_e1': 4, 'lookup_p4_e0': 4, 'iter_p4_e0': 4,
 }
@@ -69,4 +103,118 @@ def queries(tier):
                            mem_gb=6, object_bits=12, cost=(10 ** p) * 4,
                            desc='KDTree<Vector3>: %d symbolic inserts on the 2x2x2 grid, %d symbolic erases: erase results, size(), exists(pt), at(pt) equal a brute-force multiset; destructor runs' % (p, e),
                            bounds='3-D, P=%d inserts, E=%d erases, points in {0,1}^3, values {0,1}' % (p, e)))
+    qs += _hist3_queries(tier)
+    qs += _step_queries(tier)
+    return qs
+
+
+def _hist3_queries(tier):
+    # 3-D twin of the lookup / box / iteration history harnesses: KDTree<Vector3<int64_t>,int>, 3x3x3 grid, the split axis cycles x, y, z
+    qs = []
+    what_desc = {
+        'lookup3g': 'erase results, size(), exists(pt) and at(pt) for a symbolic probe point equal a brute-force multiset; destructor runs',
+        'box3': 'erase results, size(), exists(lo,hi) and the multiset returned by within(lo,hi) for a symbolic half-open box equal a brute-force scan; destructor runs',
+        'iter3': 'erase results, size() and the multiset of entries visited by begin()..end() equal the brute-force multiset; destructor runs',
+    }
+    cells = [(1, 1), (2, 1)] if tier == 'quick' else [(1, 1), (2, 1), (3, 0), (3, 1)]
+    for what in ('lookup3g', 'box3', 'iter3'):
+        for p, e in cells:
+            if tier == 'quick' and what == 'box3' and p > 1:
+                continue
+            name = '%s_p%d_e%d' % (what, p, e)
+            qs.append(dict(name=name, unit='kd', harness='h_%s.c' % what, defs={'P': p, 'E': e}, unwind=p + 2, timeout=2400,
+                           mem_gb=_MEM.get(name, 4), object_bits=12, cost=(10 ** p) * (1 + 3 * e) * (3 if what == 'box3' else 1),
+                           desc='KDTree<Vector3<int64_t>,int>: %d symbolic inserts on the 3x3x3 grid, %d symbolic erases: %s' % (p, e, what_desc[what]),
+                           bounds='3-D, P=%d inserts, E=%d erases, points in {0,1,2}^3, values {0,1}' % (p, e)))
+    return qs
+
+
+def _trees(n):
+    if n == 0:
+        return [None]
+    return [(a, b) for l in range(n) for a in _trees(l) for b in _trees(n - 1 - l)]
+
+
+def _shape_code(t):
+    # breadth-first numbering, before child first; nibble j-1 = parent index | side << 3 of node j
+    q, i, c = [(t, 0, 0)], 0, 0
+    while i < len(q):
+        node, p, s = q[i]
+        if i:
+            c |= (p | (s << 3)) << (4 * (i - 1))
+        for side, ch in enumerate(node):
+            if ch is not None:
+                q.append((ch, i, side))
+        i += 1
+    return c
+
+
+def shapes(n):
+    if n == 0:
+        return [0]
+    cs = sorted(set(_shape_code(t) for t in _trees(n)))
+    assert len(cs) == [1, 1, 2, 5, 14, 42, 132][n]  # Catalan numbers: every binary-tree shape is a cell
+    return cs
+
+
+_STEP_DESC = {
+    'insert': 'one insert(pt, v) with symbolic arguments: the iterator returned is at the new entry, the representation invariant holds again, the entries are the old ones plus the new one',
+    'erase': 'one erase(pt, v) with symbolic arguments (hit or miss): the result says whether a matching entry existed, the representation invariant holds again, exactly one matching entry is gone (none on a miss), every other entry is still there once',
+    'lookup': 'exists(pt) and at(pt) for a symbolic probe point equal a linear scan; representation unchanged',
+    'boxe': 'exists(lo,hi) for a symbolic half-open box equals a linear scan; representation unchanged',
+    'boxw': 'within(lo,hi) for a symbolic half-open box returns exactly the entries inside the box, each once; representation unchanged',
+    'iter': 'begin()..end() visits every entry exactly once; representation unchanged',
+    'adv': 'iterator that has consumed K entries (queue = breadth-first frontier), one symbolic step ++it / erase_advance(it): the tree stays well formed, exactly the entry shown is consumed (and removed by erase_advance), visited entries are untouched, the iterator is the frontier iterator of the new state',
+}
+_STEP_MEM = {  # measured peak RSS + headroom (GB); cells not listed stay below 3 GB
+    ('erase', 4): 4, ('erase', 5): 8, ('adv', 4): 4, ('adv', 5): 8, ('boxw', 3): 4, ('boxw', 4): 11, ('insert', 5): 6, ('lookup', 5): 6, ('boxe', 5): 6, ('iter', 5): 5,
+}
+
+
+def _step_q(op, n, k=None, dim=2, prefix=None):
+    name = 'step%s_%s_n%d' % ('3' if dim == 3 else '', op, n) + ('_k%d' % k if k is not None else '')
+    defs = {'N': n}
+    if dim == 3:
+        defs['KS_D'] = 3
+    if k is not None:
+        defs['K'] = k
+    if prefix is not None:  # (number of concrete leading nodes, shape code): splits a cell by the shape of the first nodes
+        defs['SYMFROM'] = prefix[0] + 1
+        defs['SHAPE'] = hex(prefix[1])
+        name += '_s%x' % prefix[1]
+    unit = ('kdsw' if op == 'boxw' else 'kds') + ('3' if dim == 3 else '')
+    return dict(name=name, unit=unit, harness='h_step_%s.c' % op, defs=defs, unwind=max(n + 3, 4), timeout=2400,
+                mem_gb=_STEP_MEM.get((op, n), 3), object_bits=12, cost=(6 ** n) * (4 if op in ('erase', 'adv', 'boxw') else 1),
+                desc='KDTree<Vector%d<int64_t>> inductive step: ANY well-formed tree with %d nodes (symbolic shape, symbolic points on the %s grid, values {0,1}; representation invariant assumed), %s; destructor runs' % (
+                    dim, n, '3x3x3' if dim == 3 else '3x3', _STEP_DESC[op]),
+                bounds='%d-D, pre-state: every tree shape with %d nodes%s, points in {0,1,2}^%d, values {0,1}; one operation' % (
+                    dim, n, (', iterator position K=%d' % k) if k is not None else '', dim))
+
+
+def _step_queries(tier):
+    qs = []
+    ops = ('insert', 'erase', 'lookup', 'boxe', 'boxw', 'iter')
+    sizes = (0, 1, 2, 3) if tier == 'quick' else (0, 1, 2, 3, 4)
+    for n in sizes:
+        for op in ops:
+            if not (tier == 'quick' and op == 'boxw' and n == 3):  # 55-75 s: thorough only
+                qs.append(_step_q(op, n))
+        for k in range(n):
+            qs.append(_step_q('adv', n, k))
+    if tier == 'quick':
+        # the one 4-node cell of the quick tier: find_subtree_min_max's pruning / queue handling only matters when the erased node has
+        # grandchildren (hand mutation H2 and the second-round seeded change m2 are invisible below 4 nodes)
+        qs.append(_step_q('erase', 4))
+    if tier != 'quick':
+        for op in ('insert', 'erase', 'lookup', 'boxe', 'iter'):
+            qs.append(_step_q(op, 5))
+        for k in range(5):
+            qs.append(_step_q('adv', 5, k))
+    # 3-D instantiation (the split axis cycles x, y, z)
+    for n in ((2,) if tier == 'quick' else (1, 2, 3, 4)):
+        for op in ops:
+            if not (n == 4 and op == 'boxw'):
+                qs.append(_step_q(op, n, dim=3))
+        for k in range(n):
+            qs.append(_step_q('adv', n, k, dim=3))
     return qs
